@@ -26,7 +26,7 @@ LEVEL_TEXT = ("Scenarios with continuous release, deaths by IBM age limit and by
 LEVEL_NOTE = ("Tolerance 1e-9 with float64 forcing files, 2e-6 relative (f4 output precision) with float32 forcing files because u += dU accumulates in a different order after a restart. An additional final "
               "record at the stop time in the restarted run and a different default reference time are documented behaviour and are not judged.")
 RULE = ("case = scenario; every completed file except the last is a restart point. Non-trivial restart point: particles are released and die after it; distinct by scenario parameters and file index.")
-MANDATORY = ["release_file_time_off_the_frequency_axis", "output_root_ending_in_digit_or_underscore", "forcing_frames_between_model_steps", "forcing_in_several_files", "restart_between_forcing_files", "restart_points", "records_compared", "newest_pids_dead_in_last_record", "newest_pids_dead_in_last_record_no_particle_variables", "new_release_after_restart", "death_after_restart", "left_grid", "duration_not_multiple_of_period", "scheme_EF", "scheme_RK2", "scheme_RK4",
+MANDATORY = ["inactive_particles_carried_over_the_restart", "release_file_time_off_the_frequency_axis", "output_root_ending_in_digit_or_underscore", "forcing_frames_between_model_steps", "forcing_in_several_files", "restart_between_forcing_files", "restart_points", "records_compared", "newest_pids_dead_in_last_record", "newest_pids_dead_in_last_record_no_particle_variables", "new_release_after_restart", "death_after_restart", "left_grid", "duration_not_multiple_of_period", "scheme_EF", "scheme_RK2", "scheme_RK4",
              "particle_variable_compared", "file_names_compared"]
 ASSUMPTIONS = ["diffusion off (as the property states)", "sparse layout (warm start reads particle_count)"]
 TIMEOUT = {"quick": 1200, "thorough": 3500}
@@ -123,7 +123,12 @@ def build(case: dict[str, Any]):
                           default_values=dict(age=0.0, weight=1.0, temp=0.0)),
                ibm=dict(module=C.REC_IBM, age=True, lifetime=lifetime, weight_from="temp", weight_from_position=True, log=False),
                output=dict(period=P * dt, numrec=numrec, instance=dict(pid="i4", X="f8", Y="f8", Z="f8", age="f8", weight="f8", temp="f8"), particle=dict(release_time="f8") if pvars else {}))
-    return dict(world=world, run=run), dict(P=P, numrec=numrec, ns=ns, dt=dt, scheme=scheme, store=store, freq=freq, lifetime=lifetime, pvars=pvars, offgrid=bool(offgrid), offaxis=bool(offaxis and not case.get("gap") and not case.get("newest_dead")))
+    inactive = bool(case["idx"] % 2 == 0)
+    if inactive:
+        # the IBM switches particles off (alive, not moved); the standard state variable `active` is part of the output so that a restart can carry it on
+        run["ibm"]["deactivate_time"] = {str(tadd(C.T0, dt)): [0], str(tadd(C.T0, 2 * dt)): [1]}  # keyed by model time: a restarted run counts its steps anew
+        run["output"]["instance"]["active"] = "i1"
+    return dict(world=world, run=run), dict(P=P, numrec=numrec, ns=ns, dt=dt, scheme=scheme, store=store, freq=freq, lifetime=lifetime, pvars=pvars, inactive=inactive, offgrid=bool(offgrid), offaxis=bool(offaxis and not case.get("gap") and not case.get("newest_dead")))
 
 
 def decode_pvar(f, name):
@@ -157,6 +162,7 @@ def run_case(case: dict[str, Any], wd: Path) -> dict[str, Any]:
     sit["duration_not_multiple_of_period"] = int(par["ns"] % par["P"] != 0)
     sit["forcing_in_several_files"] = int(len(scn["world"]["files"]) > 1)
     sit["forcing_frames_between_model_steps"] = int(par.get("offgrid", False))
+    sit["inactive_particles_carried_over_the_restart"] = int(bool(par.get("inactive")))
     sit["release_file_time_off_the_frequency_axis"] = int(par.get("offaxis", False))
     if not resA.ok:
         # the uninterrupted run is the reference; its own failures are C06/C07's subject
@@ -224,7 +230,7 @@ def run_case(case: dict[str, Any], wd: Path) -> dict[str, Any]:
                 sit["death_after_restart"] = sit.get("death_after_restart", 0) + 1
             prev_pids = cur
             bad = None
-            for name in ("X", "Y", "Z", "age", "weight", "temp"):
+            for name in ("X", "Y", "Z", "age", "weight", "temp") + (("active",) if par.get("inactive") else ()):
                 a, b_ = np.asarray(rA.vars[name], float), np.asarray(rB.vars[name], float)
                 cnt["values_compared"] = cnt.get("values_compared", 0) + len(a)
                 if len(a) and np.max(np.abs(a - b_) / (1 + np.abs(a))) > tol:
